@@ -114,6 +114,7 @@ HFN void h_thread3() { worker( 3 ); }
 HFN void h_check()
 {
     VASSERT( !null_ret, "allocate() returns an object" );
+    for ( int i = 0; i < MAXLIVE; ++i ) if ( live[i] && live[i]->v != (int) live_owner[i] ) twice = true;   // somebody else (e.g. a late destructor) wrote into a held object
     VASSERT( !twice, "allocate() never returns an object that is currently allocated to another holder" );
 #if POOL_KIND != 1
     // pooled objects (the preallocated array) that nobody holds must all be available again
